@@ -147,6 +147,9 @@ def analyse_source(job):
 
     text = job['text']
     filename = job.get('filename')
+    if job.get('relfile'):
+        make_tree(job['root'])
+        filename = os.path.join(job['root'], job['relfile'])
     project = Project([job['root']])
     lines = split_lines(text)
     out = []
@@ -158,7 +161,8 @@ def analyse_source(job):
         r = {'ln': ln, 'col': col, 'kind': t['kind'], 'ident': t['ident'], 'start': t['start'],
              'ctx': t.get('ctx'), 'line': lines[ln - 1] if ln <= len(lines) else '',
              'prefix': None, 'props': None, 'exc': None, 'exp': None, 'exp_kind': None,
-             'own_u': None, 'own_m': None, 'pk': None, 'exp_exc': None}
+             'own_u': None, 'own_m': None, 'pk': None, 'exp_exc': None,
+             'must_return': bool(t.get('must_return')), 'package': t.get('package'), 'known': t.get('known')}
         out.append(r)
         signal.alarm(job.get('timeout', 20))
         try:
@@ -172,6 +176,20 @@ def analyse_source(job):
             r['exc'] = type(e).__name__
         finally:
             signal.alarm(0)
+        if not r['exc'] and t.get('package') is not None:
+            # what the package listing gives for the package the path left of the cursor names
+            # (independent of the branch selection inside assist)
+            signal.alarm(job.get('timeout', 20))
+            try:
+                from supp import assistant as _as
+                r['exp'] = list(_as.list_packages(project, t['package'], filename))
+                r['exp_kind'] = 'packages'
+            except _Timeout:
+                r['exp_exc'] = 'Timeout'
+            except Exception as e:
+                r['exp_exc'] = 'list_packages:' + type(e).__name__
+            finally:
+                signal.alarm(0)
         if r['exc'] or t['kind'] not in ('name', 'attr'):
             continue
         # ---- expected answer from the analysis of the UNMARKED source --------------------
@@ -240,6 +258,10 @@ def direct_failures(r):
     """list of (what, detail) for one worker result; empty = the contract holds on this input"""
     bad = []
     if r['exc']:
+        if r.get('must_return'):
+            # a half-typed `from` line / an import of an existing module: assist has to answer
+            bad.append(('no-return', 'assist raised %s instead of returning (prefix, proposals); text left of the cursor %r'
+                        % (r['exc'], r['line'][:r['col']][-40:])))
         return bad
     left = r['line'][:r['col']]
     want = id_suffix_ref(left)
@@ -256,6 +278,12 @@ def direct_failures(r):
         bad.append(('type', 'non-string proposals %r' % nonid[:3]))
     if r['exp'] is not None:
         got, exp = set(props), set(r['exp'])
+        if r['exp_kind'] == 'packages':
+            ok = list(props) == sorted(exp) and (r.get('known') is None or set(r['known']) <= got)
+            if not ok:
+                bad.append(('packages', 'proposals differ from the listing of package %r: %r more / %r less; required %r'
+                            % (r.get('package'), sorted(got - exp)[:5], sorted(exp - got)[:5], r.get('known'))))
+            return bad
         if r['exp_kind'] == 'attrs_store':
             # the attribute being assigned under the cursor is not a declaration of itself
             # (pinned behaviour of `location`, tests/test_assistant_location.py): it may be absent
@@ -346,6 +374,99 @@ IMPORT_LINES = ['import {m}', 'import os, {m}', 'import {m} as alias', 'import {
                 'from os.path import {a}', 'if foo:\n    import {m}', 'def g():\n    from os import {a}\n']
 IMPORT_M = ['os', 'sys', 'os.path', 'multiprocessing.connection', 'json', 'xml.dom.minidom']
 IMPORT_A = ['path', 'sep', 'getcwd', 'join']
+
+
+# project tree for import completion: module names that start with / contain keyword-like text
+TREE = ['importer/__init__.py', 'importer/csvfile.py', 'importer/plugins/__init__.py', 'importer/plugins/xml_in.py',
+        'imports_helper.py', 'fromage.py', 'as_mod/__init__.py', 'as_mod/import_me.py', 'exporter/__init__.py',
+        'exporter/csvfile.py', 'pkgx/__init__.py', 'pkgx/main.py', 'pkgx/importsib.py', 'pkgx/sub/__init__.py',
+        'pkgx/sub/deep.py']
+TREE_FILE = 'pkgx/sub/deep.py'          # the file being edited (so that `from .` and `from ..` resolve)
+
+# dotted module paths typed character by character after `from `
+FROM_PATHS = ['importlib.util', 'importer.plugins.xml_in', 'imports_helper', 'fromage', 'as_mod.import_me',
+              'exporter.csvfile', 'os.path', 'multiprocessing.connection', '.importsib', '..importsib', '.', '..',
+              'xml.dom.minidom', 'importlib.machinery', '...']
+# names the listing of a package must contain (known by construction of TREE / from the stdlib)
+KNOWN = {'': ['importlib', 'importer', 'imports_helper', 'fromage', 'as_mod', 'exporter', 'pkgx', 'os', 'sys'],
+         'importlib': ['util', 'machinery', 'abc'], 'importer': ['csvfile', 'plugins'], 'importer.plugins': ['xml_in'],
+         'as_mod': ['import_me'], 'exporter': ['csvfile'], 'multiprocessing': ['connection', 'pool'],
+         'xml': ['dom', 'etree'], 'xml.dom': ['minidom'], '.': ['deep'], '..': ['importsib', 'sub', 'main']}
+FROM_CONTEXTS = [('', ''), ('import os\nx = 1\n', ''), ('def g():\n', '    '), ('if 1:\n    y = 2\n', '    '),
+                 ('class C:\n  def m(self):\n', '\t')]
+
+
+def make_tree(root):
+    for rel in TREE:
+        p = os.path.join(root, rel)
+        if not os.path.exists(p):
+            os.makedirs(os.path.dirname(p), exist_ok=True)
+            with open(p, 'w') as f:
+                f.write('value = 1\n')
+
+
+def from_package(path):
+    """package the half-typed path names: leading dots + the completely typed components"""
+    dots = path[:len(path) - len(path.lstrip('.'))]
+    comps = path[len(dots):].split('.')
+    return dots + '.'.join(comps[:-1]), len(comps) - 1
+
+
+def gen_from_jobs(ctx, root, full):
+    """half-typed `from <path>` lines (the text does not parse: the shortcut must answer), the same
+    cursor inside a complete statement, and `import <path>` / `from <pkg> import <member>` statements on
+    modules whose names start with / contain `import`, `from`, `as`"""
+    jobs = []
+    for path in FROM_PATHS:
+        for k in range(0, len(path) + 1):
+            typed = path[:k]
+            package, _ncomp = from_package(typed)
+            must = KNOWN.get(package)
+            ctxs = FROM_CONTEXTS if full else [FROM_CONTEXTS[0], FROM_CONTEXTS[ctx.rng.randrange(1, len(FROM_CONTEXTS))]]
+            for before, indent in ctxs:
+                for spaces in ((' ', '  ') if full else (' ',)):
+                    head = before + indent + 'from' + spaces + typed
+                    ln = head.count('\n') + 1
+                    col = len(head) - (head.rfind('\n') + 1)
+                    tails = ['', '\nz = 3\n']
+                    rest = path[k:]
+                    tails.append(rest + ' import value\n')            # the same cursor in a complete statement
+                    for tail in tails:
+                        ident = id_suffix_ref(typed)
+                        jobs.append({'tag': 'gen', 'text': head + tail, 'filename': None, 'relfile': TREE_FILE, 'root': root,
+                                     'dump': False, 'cls': 'from', 'tmpl': 'from ' + path,
+                                     'targets': [{'kind': 'from', 'ln': ln, 'start': col - len(ident), 'ident': ident, 'col': col,
+                                                  'ctx': 'from', 'must_return': True, 'package': package, 'known': must}]})
+    # marked-import branches on the same module names
+    stmts = [('import {p}', None), ('import os, {p}', None), ('import {p} as alias', None), ('from importlib import util', 'importlib'),
+             ('from importer import plugins, csvfile', 'importer'), ('from importer.plugins import xml_in', 'importer.plugins'),
+             ('from as_mod import import_me as im', 'as_mod'), ('def g():\n    from importer import (csvfile,\n        plugins)', 'importer')]
+    for tmpl, frm in stmts:
+        paths = [p for p in FROM_PATHS if not p.startswith('.')] if '{p}' in tmpl else [None]
+        for path in paths:
+            text = 'foo = 1\n' + (tmpl.format(p=path) if path else tmpl) + '\n'
+            try:
+                tree = ast.parse(text)
+            except SyntaxError:
+                continue
+            targets = []
+            for node in ast.walk(tree):
+                if not isinstance(node, (ast.Import, ast.ImportFrom)):
+                    continue
+                for a in node.names:
+                    if a.name == 'os':
+                        continue
+                    for m in re.finditer(r'[^\W\d]\w*', a.name):
+                        comps_before = a.name[:m.start()].rstrip('.')
+                        for o in range(0, len(m.group()) + 1):
+                            t = {'kind': 'import', 'ln': a.lineno, 'start': a.col_offset + m.start(), 'ident': m.group(),
+                                 'col': a.col_offset + m.start() + o, 'ctx': 'import-kw', 'must_return': True}
+                            if isinstance(node, ast.Import):
+                                t['package'] = comps_before
+                            targets.append(t)
+            jobs.append({'tag': 'gen', 'text': text, 'filename': None, 'relfile': TREE_FILE, 'root': root, 'dump': False,
+                         'cls': 'import', 'tmpl': tmpl, 'targets': targets})
+    return jobs
 
 
 def _indent(s, n):
@@ -610,6 +731,9 @@ Definition check_prefix (c : list N * nat * list N * list N * list N * list N) :
       (negb (dotted_tail left) || leqb frm ref)
   end.
 
+(* branch case: (text left of the cursor, assist answered with the package listing) *)
+Definition check_branch (c : list N * bool) : bool := Bool.eqb (from_branch (fst c)) (snd c).
+
 (* proposals case: observed list is clean (sorted, duplicate free, unmarked) *)
 Definition check_clean (c : list (list N)) : bool := clean_proposalsb c.
 
@@ -722,6 +846,10 @@ def run(ctx):
     jobs = corpus_jobs(root)
     ncorpus = len(jobs)
     jobs += gen_program_jobs(ctx, root, full)
+    make_tree(root)
+    fjobs = gen_from_jobs(ctx, root, full)
+    jobs += fjobs
+    cov['from_branch_positions'] = sum(1 for j in fjobs for t in j['targets'] if t['kind'] == 'from')
     nfiles = ctx.pick(36, 100000)
     files = stdlib_files(limit=nfiles, rng=ctx.rng)
     skipped = {}
@@ -747,11 +875,13 @@ def run(ctx):
             flat.append((j, r))
             if r['exc']:
                 ctx.histogram('assist_exceptions', '%s/%s' % (r['exc'], r['kind']))
-                ctx.count((j['text'], r['ln'], r['col']), nontrivial=False)
-                continue
+                ctx.count((j['text'], r['ln'], r['col']), nontrivial=bool(r.get('must_return')))
+                if not r.get('must_return'):
+                    continue
             left = r['line'][:r['col']]
-            nontriv = bool(id_suffix_ref(left)) or r['exp'] is not None
-            ctx.count((j['text'], r['ln'], r['col']), nontrivial=nontriv)
+            if not r['exc']:
+                nontriv = bool(id_suffix_ref(left)) or r['exp'] is not None
+                ctx.count((j['text'], r['ln'], r['col']), nontrivial=nontriv)
             ctx.histogram('preceding_class', prev_class(left))
             ctx.histogram('cursor_kind', r['kind'] + ('/end' if r['col'] == r['start'] + len(r['ident']) else '/inside'))
             ctx.histogram('source_kind', j['tag'])
@@ -769,7 +899,8 @@ def run(ctx):
                                                               '; '.join(d for _w, d in bad)),
                                   {'kind': 'direct', 'source': j['text'] if j['tag'] != 'file' else None,
                                    'file': j['filename'], 'position': [r['ln'], r['col']], 'target_kind': r['kind'],
-                                   'ident': r['ident'], 'start': r['start'], 'failures': bad})
+                                   'ident': r['ident'], 'start': r['start'], 'failures': bad, 'relfile': j.get('relfile'),
+                                   'must_return': r.get('must_return'), 'package': r.get('package'), 'known': r.get('known')})
     cov['direct_failures'] = nviol
     cov['direct_failure_classes'] = per_class
     total = len(flat)
@@ -848,6 +979,20 @@ def run(ctx):
     cov['correspondence_cases']['transparency'] = len(tterms)
     cov['correspondence_chars'] = {'prefix': sum(map(len, pterms)), 'clean_proposals': sum(map(len, cterms)),
                                    'transparency': sum(map(len, tterms))}
+    bterms, bkeep, seen = [], [], set()
+    for j, r in flat:
+        if r['kind'] != 'from' or not r['line'].isascii():
+            continue
+        left = r['line'][:r['col']]
+        took = (not r['exc']) and r['exp'] is not None and list(r['props']) == sorted(r['exp'])
+        if (left, took) in seen:
+            continue
+        seen.add((left, took))
+        bterms.append('(%s, %s)' % (chars(left), 'true' if took else 'false'))
+        bkeep.append((j, r))
+    cov['correspondence_cases']['from_branch'] = len(bterms)
+    bad_b = ctx.run_cases(imports, prelude, 'check_branch', bterms, shard=shard_of(bterms))
+    cov['from_branch_disagreements'] = len(bad_b)
     bad_p = ctx.run_cases(imports, prelude, 'check_prefix', pterms, shard=shard_of(pterms))
     ctx.log('prefix cases done')
     bad_c = ctx.run_cases(imports, prelude, 'check_clean', cterms, shard=shard_of(cterms))
@@ -876,6 +1021,7 @@ def run(ctx):
                            'file': j['filename'], 'position': [r['ln'], r['col']], 'observed_prefix': r['prefix'],
                            'line': r['line'], 'own_unmarked': r.get('own_u'), 'own_marked': r.get('own_m')},
                           found_input=False)
+    report(bad_b, bkeep, 'Model.Assist.from_branch vs the branch assist() takes on half-typed from lines', 'C12_from_shortcut_taken')
     report(bad_p, pkeep, 'Model.Assist.prefix_of vs assist() prefix (and references vs Python str/re)', 'C12_prefix_exact')
     report(bad_c, ckeep, 'clean_proposalsb on observed proposals', 'C12_proposals_sorted_nodup / C12_proposals_no_mark')
     report(bad_t, tkeep, 'Model.Assist.names_at/shift vs Flow.names_at on marked and unmarked analyses', 'C12_mark_transparent')
@@ -895,13 +1041,14 @@ def replay(ctx, obj):
     root = os.path.join(ctx.scratch, 'proj')
     os.makedirs(root, exist_ok=True)
     ln, col = r['position']
-    job = {'tag': 'replay', 'text': text, 'filename': r.get('file'), 'root': root, 'dump': False,
+    job = {'tag': 'replay', 'text': text, 'filename': r.get('file'), 'root': root, 'dump': False, 'relfile': r.get('relfile'),
            'targets': [{'kind': r.get('target_kind', 'text'), 'ln': ln, 'start': r.get('start', col),
-                        'ident': r.get('ident', ''), 'col': col, 'ctx': 'replay'}]}
+                        'ident': r.get('ident', ''), 'col': col, 'ctx': 'replay', 'must_return': r.get('must_return'),
+                        'package': r.get('package'), 'known': r.get('known')}]}
     res = analyse_source(job)[0]
     bad = direct_failures(res)
     b = set(dir(builtins))
     print('prefix', repr(res['prefix']), 'exception', res['exc'],
           'proposals (builtins hidden)', None if res['props'] is None else [p for p in res['props'] if p not in b][:30])
     print('failures', bad)
-    return 1 if bad or res['exc'] else 0
+    return 1 if bad else 0
